@@ -30,6 +30,9 @@ type vLink struct {
 	// dropFrom/dropTo: packets number dropFrom..dropTo-1 (counted from the
 	// moment the link is armed) are dropped, whatever they are
 	dropFrom, dropTo, armedSent int
+	// ignoreCancel: the (never blocking) send function does not look at its
+	// context, like the channel transports of the repository's own tests
+	ignoreCancel bool
 	// slowData: a DATA packet that is not a ping spends this long inside the
 	// transport's send function (a slow, uninterruptible stream write)
 	slowData time.Duration
@@ -42,10 +45,12 @@ func newLink(name string, budget int) *vLink {
 }
 
 func (l *vLink) send(ctx context.Context, b []byte) error {
-	select {
-	case <-ctx.Done():
-		return ctx.Err()
-	default:
+	if !l.ignoreCancel {
+		select {
+		case <-ctx.Done():
+			return ctx.Err()
+		default:
+		}
 	}
 	if l.slowData > 0 && len(b) >= 4 && b[0] == DATA && b[3] == FALSE {
 		// a write that cannot be interrupted once it has started
